@@ -7,15 +7,19 @@ import (
 	"net"
 	"net/http"
 	"net/http/httptest"
+	"strconv"
 	"sync"
 )
 
 // Behaviour of one path.
 type Behaviour struct {
-	Kind string // "body" (200 + Body), "status" (HTTP Status + Body), "hangup" (close connection mid-body), "func"
+	Kind string // "body" (200 + Body), "status" (HTTP Status + Body), "hangup" (close connection mid-body), "func", "gated"
 	Body []byte
 	Code int
 	Func func(req []byte) (int, []byte)
+	// Gate ("gated"): called after the first half of Body has been sent and flushed; the rest follows when it returns. The
+	// client is then inside its transfer: a scheduler gate (and crash point) that needs no hook in the client.
+	Gate func()
 }
 
 type Server struct {
@@ -82,6 +86,17 @@ func (s *Server) handle(w http.ResponseWriter, r *http.Request) {
 	switch b.Kind {
 	case "body":
 		w.Write(b.Body)
+	case "gated":
+		w.Header().Set("Content-Length", strconv.Itoa(len(b.Body)))
+		half := len(b.Body) / 2
+		w.Write(b.Body[:half])
+		if f, ok := w.(http.Flusher); ok {
+			f.Flush()
+		}
+		if b.Gate != nil {
+			b.Gate()
+		}
+		w.Write(b.Body[half:])
 	case "status":
 		w.WriteHeader(b.Code)
 		w.Write(b.Body)
